@@ -158,7 +158,7 @@ func resolveUpdate(w *World, op Op, st Stored) *Request {
 		r.Root = h[:]
 	}
 	switch op.M {
-	case "ext":
+	case "ext", "splice_sig":
 		for i := uint64(0); i < 1+op.MV%3; i++ {
 			switch mr.IntN(3) {
 			case 0:
@@ -338,6 +338,34 @@ func resolveUpdate(w *World, op Op, st Stored) *Request {
 	case "bytes":
 		r.CP = mutateBytes(r.CP, op.MV)
 		r.SigValid = -1
+	case "splice_sig":
+		// A text-and-signature pair the log really produced, with the boundary between the two moved: the signed text is cut short
+		// after a line (the rest of it - extension lines - is put in front of the signature bytes instead). The shortened text is
+		// a well-formed checkpoint that nobody signed. The pair comes from the stored checkpoint when that has extension lines
+		// (the witness has verified exactly this text and signature before), else from the note just built.
+		src := r.CP
+		if st.Has && !st.Bad && strings.Count(st.Text, "\n") > 3 && op.MV%4 != 3 {
+			src = st.Raw
+			r.Size, r.Root = st.Size, st.Root
+		}
+		pn, _ := ParseNote(src)
+		var ls *SigLine
+		for i := range pn.Sigs {
+			if pn.Sigs[i].Name == ld.Key.Name && pn.Sigs[i].Hash == ld.Key.KeyHash(algEd25519) {
+				ls = &pn.Sigs[i]
+				break
+			}
+		}
+		tl := strings.SplitAfter(pn.Text, "\n")
+		if ls != nil && len(tl) > 4 { // three checkpoint lines, at least one extension line, and the empty tail
+			keep := 3 + umod(op.MV/4, len(tl)-4)
+			head, rest := strings.Join(tl[:keep], ""), strings.Join(tl[keep:], "")
+			r.Text = head
+			r.CP = MakeNote(head, sigLine(ls.Name, ls.Hash, append([]byte(rest), ls.Sig...)))
+		} else {
+			r.CP = MakeNote(r.Text) // nothing to splice: no signature at all
+		}
+		r.SigValid = 0
 	case "trailing_nl":
 		// the valid note followed by blank lines: not a note any more (its signature block does not end the text)
 		r.CP = append(append([]byte{}, r.CP...), bytes.Repeat([]byte("\n"), 1+int(op.MV%3))...)
